@@ -113,8 +113,9 @@ func c13readSide(c *Ctx, N int, leftSide bool) {
 	}
 	s := c.w.newState()
 	w := make([]*Term, N+1)
+	warr := ArrVar(e.freshName("w"))
 	for i := range w {
-		w[i] = e.freshVar("w", 8)
+		w[i] = Select(warr, CI(int64(i)))
 	}
 	pad, _ := padArgs(c, s)
 	left := B(leftSide)
@@ -153,38 +154,11 @@ func c13readSide(c *Ctx, N int, leftSide bool) {
 			return &Violation{Detail: "reader does not consume exactly N bytes", Replay: &ReplayReq{Steps: steps(val), Judge: Judge{Kind: "buf_ne", Step: 1, ExpectHex: hexOf([]byte{byte(val(w[N]))})}}}
 		})
 		if c.Prove(fs, sideName+":strip-length", Eq(got.Len, spec.Len), mk("length of the returned text differs from: N minus the maximal run of the pad byte on the pad side")) {
-			// content in chunks (each position: inside the text => byte equals the specified one)
-			const chunk = 16
-			for lo := 0; lo < N; lo += chunk {
-				var cs []*Term
-				for j := lo; j < lo+chunk && j < N; j++ {
-					in := Lt(CI(int64(j)), spec.Len, true)
-					cs = append(cs, Implies(in, Eq(spec.At(CI(int64(j))), got.At(CI(int64(j))))))
-				}
-				c.Prove(fs, fmt.Sprintf("%s:strip-content[%d..%d)", sideName, lo, min(lo+chunk, N)), And(cs...), mk("returned text differs from the field bytes with only the pad run removed"))
-			}
+			// content: one symbolic position covers every index (validity with idx free)
+			idx := e.boundedVar(fs, "idx", 0, int64(N))
+			c.Prove(fs, sideName+":strip-content", Implies(Lt(idx, spec.Len, true), Eq(spec.At(idx), got.At(idx))), mk("returned text differs from the field bytes with only the pad run removed"))
 		}
 	}
-}
-
-// trimSym: specification of reading a fixed text field with a symbolic pad byte.
-func trimSym(w []*Term, pad *Term, left bool) *Bytes {
-	N := len(w)
-	if !left {
-		L := CI(0)
-		for j := 0; j < N; j++ {
-			L = Ite(Eq(w[j], pad), L, CI(int64(j+1)))
-		}
-		return SliceBytes(VecBytes(w), CI(0), L)
-	}
-	K := CI(int64(N))
-	for j := N - 1; j >= 0; j-- {
-		K = Ite(Eq(w[j], pad), K, CI(int64(j)))
-	}
-	b := &Bytes{Len: Sub(CI(int64(N)), K)}
-	vb := VecBytes(w)
-	b.At = memoAt(func(i *Term) *Term { return vb.At(Add(K, i)) })
-	return b.Norm()
 }
 
 func c13short(c *Ctx, N int) {
@@ -295,4 +269,24 @@ func c13default(c *Ctx, N int, write bool) {
 		}
 		c.Witness(fs, "default read", nil)
 	}
+}
+
+// trimSym: specification of reading a fixed text field with a symbolic pad byte.
+func trimSym(w []*Term, pad *Term, left bool) *Bytes {
+	N := len(w)
+	if !left {
+		L := CI(0)
+		for j := 0; j < N; j++ {
+			L = Ite(Eq(w[j], pad), L, CI(int64(j+1)))
+		}
+		return SliceBytes(VecBytes(w), CI(0), L)
+	}
+	K := CI(int64(N))
+	for j := N - 1; j >= 0; j-- {
+		K = Ite(Eq(w[j], pad), K, CI(int64(j)))
+	}
+	b := &Bytes{Len: Sub(CI(int64(N)), K)}
+	vb := VecBytes(w)
+	b.At = memoAt(func(i *Term) *Term { return vb.At(Add(K, i)) })
+	return b.Norm()
 }
